@@ -464,7 +464,17 @@ def run(ctx):
     sh = [h for h in sh if any(o["op"] == "apply" for o in h) and any(o["op"] == "save" for o in h)]
     all_sh = sh
     if len(sh) > (300 if q else 5000):
-        sh = rng.sample(sh, 300 if q else 5000)
+        # a style that went through a file before it is applied (add, save, reopen, apply, save) is always among the sampled histories
+        def through_file(h):
+            ops = [o["op"] for o in h]
+            if "reopen" not in ops:
+                return False
+            k = ops.index("reopen")
+            return "add" in ops[:k] and "save" in ops[:k] and "apply" in ops[k:] and "save" in ops[k:]
+        must = [h for h in sh if through_file(h)]
+        must = must if len(must) <= 60 else rng.sample(must, 60)
+        rest = [h for h in sh if not through_file(h)]
+        sh = must + rng.sample(rest, min(len(rest), (300 if q else 5000) - len(must)))
     def both_live(h):
         """two styles with different attribute sets are on the two cells when the file is saved"""
         on, attr = {}, {}
